@@ -116,6 +116,12 @@ func (s *compositeSchedule) Left() int {
 		s.rwMu.Lock()
 		shedsLeftNow := len(s.scheds)
 		if shedsLeftNow == schedsLeft {
+			if st, ok := s.scheds[0].(interface{ IsStarted() bool }); ok && !st.IsStarted() {
+				// Nothing is started yet, so nothing ahead can be finished: still unknown.
+				// Next below would start the schedule, but Left MAY be called before Start.
+				s.rwMu.Unlock()
+				return -1
+			}
 			currentFinishTime, ok := s.scheds[0].Next()
 			if ok {
 				s.rwMu.Unlock()
@@ -130,6 +136,14 @@ func (s *compositeSchedule) Left() int {
 		return -1
 	}
 	return left + leftAfter
+}
+
+// IsStarted reports whether current nested schedule is started (see StartSync).
+func (s *compositeSchedule) IsStarted() bool {
+	s.rwMu.RLock()
+	defer s.rwMu.RUnlock()
+	st, ok := s.scheds[0].(interface{ IsStarted() bool })
+	return !ok || st.IsStarted()
 }
 
 func (s *compositeSchedule) startNext(currentFinishTime time.Time) {
